@@ -6772,14 +6772,14 @@ let blanks n =
 
 (** val mask_loop : nat -> str -> str res **)
 
-let rec mask_loop fuel action1 =
+let rec mask_loop fuel action2 =
   match fuel with
   | O -> Err OutOfFuel
   | S f ->
-    (match find_exec action1 with
+    (match find_exec action2 with
      | Some e ->
-       let pre = firstn e action1 in
-       let rest = skipn e action1 in
+       let pre = firstn e action2 in
+       let rest = skipn e action2 in
        (match rest with
         | [] -> Ok pre
         | c :: _ ->
@@ -6793,7 +6793,7 @@ let rec mask_loop fuel action1 =
                        (app pre (app (blanks n) m)))
                    | None -> Ok (app pre rest))
                 | None -> bind (mask_loop f rest) (fun m -> Ok (app pre m))))
-     | None -> Ok action1)
+     | None -> Ok action2)
 
 (** val rep2 : z -> z -> z -> z -> str -> str **)
 
@@ -6848,8 +6848,8 @@ let escapes m =
 
 (** val mask_action_contents : str -> str res **)
 
-let mask_action_contents action1 =
-  bind (mask_loop (S (length action1)) action1) (fun m -> Ok (escapes m))
+let mask_action_contents action2 =
+  bind (mask_loop (S (length action2)) action2) (fun m -> Ok (escapes m))
 
 (** val s_alt_comma : str **)
 
@@ -15116,6 +15116,1398 @@ let dispatch_option op a =
             then Some (VL (map vnat (writes (as_str a))))
             else None
 
+(** val eXIT_OK : z **)
+
+let eXIT_OK =
+  Z0
+
+(** val eXIT_NOMATCH : z **)
+
+let eXIT_NOMATCH =
+  Zpos XH
+
+(** val eXIT_ERROR : z **)
+
+let eXIT_ERROR =
+  Zpos (XO XH)
+
+(** val eXIT_INTERRUPT : z **)
+
+let eXIT_INTERRUPT =
+  Zpos (XO (XI (XO (XO (XO (XO (XO XH)))))))
+
+(** val nLb : z **)
+
+let nLb =
+  Zpos (XO (XI (XO XH)))
+
+(** val nULb : z **)
+
+let nULb =
+  Z0
+
+(** val terminator : bool -> z **)
+
+let terminator = function
+| true -> nULb
+| false -> nLb
+
+(** val frame : z -> str list -> str **)
+
+let frame t0 parts =
+  concat (map (fun p -> app p (t0 :: [])) parts)
+
+(** val opt_part : bool -> str -> str list **)
+
+let opt_part b s =
+  if b then s :: [] else []
+
+(** val shown : bool -> (str -> str) -> str -> str **)
+
+let shown ansi strip r =
+  if ansi then strip r else r
+
+(** val matched_from : (nat -> str -> bool) -> nat -> str list -> str list **)
+
+let rec matched_from m i = function
+| [] -> []
+| r :: t0 -> app (if m i r then r :: [] else []) (matched_from m (S i) t0)
+
+(** val matched_records : (nat -> str -> bool) -> str list -> str list **)
+
+let matched_records m rs =
+  matched_from m O rs
+
+(** val filter_parts : bool -> str -> str list -> str list **)
+
+let filter_parts print_query query body =
+  app (opt_part print_query query) body
+
+(** val unsorted_body :
+    bool -> bool -> (str -> str) -> (nat -> str -> bool) -> str list -> str
+    list **)
+
+let unsorted_body ansi tac strip m rs =
+  let b = map (shown ansi strip) (matched_records m rs) in
+  if tac then rev b else b
+
+type ending =
+| EAccept
+| EPrintQuery
+| EAbort
+| EError
+
+(** val exit_status : ending -> str list -> z **)
+
+let exit_status e body =
+  match e with
+  | EAccept -> (match body with
+                | [] -> eXIT_NOMATCH
+                | _ :: _ -> eXIT_OK)
+  | EPrintQuery -> eXIT_OK
+  | EAbort -> eXIT_INTERRUPT
+  | EError -> eXIT_ERROR
+
+(** val accept_parts :
+    bool -> str -> bool -> str -> str list -> str list -> str list **)
+
+let accept_parts print_query query expect0 key0 queue body =
+  app (opt_part print_query query)
+    (app (opt_part expect0 key0) (app queue body))
+
+(** val stdout_of :
+    ending -> z -> bool -> str -> bool -> str -> str list -> str list -> str **)
+
+let stdout_of e t0 print_query query expect0 key0 queue body =
+  match e with
+  | EAccept ->
+    frame t0 (accept_parts print_query query expect0 key0 queue body)
+  | EPrintQuery -> frame t0 (query :: [])
+  | _ -> []
+
+(** val sel_mem0 : ('a1 -> nat) -> 'a1 -> 'a1 list -> bool **)
+
+let sel_mem0 key0 x sel0 =
+  existsb (fun y -> Nat.eqb (key0 y) (key0 x)) sel0
+
+(** val sel_remove0 : ('a1 -> nat) -> 'a1 -> 'a1 list -> 'a1 list **)
+
+let sel_remove0 key0 x sel0 =
+  filter (fun y -> negb (Nat.eqb (key0 y) (key0 x))) sel0
+
+(** val sel_add0 :
+    ('a1 -> nat) -> nat -> 'a1 -> 'a1 list -> 'a1 list * bool **)
+
+let sel_add0 key0 limit x sel0 =
+  if Nat.leb limit (length sel0)
+  then (sel0, false)
+  else if sel_mem0 key0 x sel0
+       then (sel0, true)
+       else ((app sel0 (x :: [])), true)
+
+(** val sel_toggle0 : ('a1 -> nat) -> nat -> 'a1 -> 'a1 list -> 'a1 list **)
+
+let sel_toggle0 key0 limit x sel0 =
+  if sel_mem0 key0 x sel0
+  then sel_remove0 key0 x sel0
+  else fst (sel_add0 key0 limit x sel0)
+
+(** val sel_add_all0 :
+    ('a1 -> nat) -> nat -> 'a1 list -> 'a1 list -> 'a1 list **)
+
+let rec sel_add_all0 key0 limit xs sel0 =
+  match xs with
+  | [] -> sel0
+  | x :: r ->
+    let (sel', ok) = sel_add0 key0 limit x sel0 in
+    if ok then sel_add_all0 key0 limit r sel' else sel'
+
+(** val sel_remove_all0 : ('a1 -> nat) -> 'a1 list -> 'a1 list -> 'a1 list **)
+
+let sel_remove_all0 key0 xs sel0 =
+  fold_left (fun s x -> sel_remove0 key0 x s) xs sel0
+
+(** val sel_toggle_all0 :
+    ('a1 -> nat) -> nat -> 'a1 list -> 'a1 list -> 'a1 list **)
+
+let sel_toggle_all0 key0 limit xs sel0 =
+  let prev = filter (fun x -> sel_mem0 key0 x sel0) xs in
+  let others = filter (fun x -> negb (sel_mem0 key0 x sel0)) xs in
+  sel_add_all0 key0 limit others (sel_remove_all0 key0 prev sel0)
+
+(** val result_body : 'a1 option -> 'a1 list -> 'a1 list **)
+
+let result_body current sel0 = match sel0 with
+| [] -> (match current with
+         | Some c -> c :: []
+         | None -> [])
+| _ :: _ -> sel0
+
+(** val is_blank0 : z -> bool **)
+
+let is_blank0 c =
+  (||) (Z.eqb c (Zpos (XO (XO (XO (XO (XO XH)))))))
+    (Z.eqb c (Zpos (XI (XO (XO XH)))))
+
+(** val is_space_ascii : z -> bool **)
+
+let is_space_ascii c =
+  (||) (Z.eqb c (Zpos (XO (XO (XO (XO (XO XH)))))))
+    ((&&) (Z.leb (Zpos (XI (XO (XO XH)))) c)
+      (Z.leb c (Zpos (XI (XO (XI XH))))))
+
+(** val trim_right0 : str -> str **)
+
+let trim_right0 s =
+  rev (drop_while is_space_ascii (rev s))
+
+(** val take_while1 : ('a1 -> bool) -> 'a1 list -> 'a1 list **)
+
+let rec take_while1 p = function
+| [] -> []
+| x :: t0 -> if p x then x :: (take_while1 p t0) else []
+
+(** val awk_fields_fuel : nat -> str -> str list **)
+
+let rec awk_fields_fuel fuel s =
+  match fuel with
+  | O -> []
+  | S f ->
+    (match s with
+     | [] -> []
+     | _ :: _ ->
+       let word = take_while1 (fun c -> negb (is_blank0 c)) s in
+       let rest = drop_while (fun c -> negb (is_blank0 c)) s in
+       let gap = take_while1 is_blank0 rest in
+       (app word gap) :: (awk_fields_fuel f (drop_while is_blank0 rest)))
+
+(** val awk_fields : str -> str list **)
+
+let awk_fields s =
+  let s' = drop_while is_blank0 s in awk_fields_fuel (length s') s'
+
+type sel_event =
+| SToggle of nat
+| SSelect of nat
+| SDeselect of nat
+| SSelectAll of nat list
+| SDeselectAll of nat list
+| SToggleAll of nat list
+| SClear
+| SPrint of str
+
+(** val ev_step :
+    nat -> (nat list * str list) -> sel_event -> nat list * str list **)
+
+let ev_step limit st0 e =
+  let sel0 = fst st0 in
+  let q = snd st0 in
+  (match e with
+   | SToggle i -> ((sel_toggle0 (fun x -> x) limit i sel0), q)
+   | SSelect i -> ((fst (sel_add0 (fun x -> x) limit i sel0)), q)
+   | SDeselect i -> ((sel_remove0 (fun x -> x) i sel0), q)
+   | SSelectAll l -> ((sel_add_all0 (fun x -> x) limit l sel0), q)
+   | SDeselectAll l -> ((sel_remove_all0 (fun x -> x) l sel0), q)
+   | SToggleAll l -> ((sel_toggle_all0 (fun x -> x) limit l sel0), q)
+   | SClear -> ([], q)
+   | SPrint s -> (sel0, (app q (s :: []))))
+
+(** val session_result :
+    z -> bool -> str -> bool -> str -> (nat -> str) -> nat -> sel_event list
+    -> nat option -> ending -> str * z **)
+
+let session_result t0 print_query query expect0 key0 present limit evs current e =
+  let st0 = fold_left (ev_step limit) evs ([], []) in
+  let body = map present (result_body current (fst st0)) in
+  ((stdout_of e t0 print_query query expect0 key0 (snd st0) body),
+  (exit_status e body))
+
+(** val strip_prefix : str -> str -> str option **)
+
+let rec strip_prefix p s =
+  match p with
+  | [] -> Some s
+  | x :: p' ->
+    (match s with
+     | [] -> None
+     | y :: s' -> if Z.eqb x y then strip_prefix p' s' else None)
+
+(** val remove_first : str -> str list -> str list **)
+
+let rec remove_first x = function
+| [] -> []
+| y :: r -> if str_eqb x y then r else y :: (remove_first x r)
+
+(** val dedup : str list -> str list **)
+
+let rec dedup = function
+| [] -> []
+| x :: r -> x :: (filter (fun y -> negb (str_eqb x y)) (dedup r))
+
+(** val framed_perm : nat -> z -> str list -> str -> bool **)
+
+let rec framed_perm fuel t0 remaining s =
+  match fuel with
+  | O -> false
+  | S f ->
+    (match remaining with
+     | [] -> (match s with
+              | [] -> true
+              | _ :: _ -> false)
+     | _ :: _ ->
+       existsb (fun r ->
+         match strip_prefix (app r (t0 :: [])) s with
+         | Some rest -> framed_perm f t0 (remove_first r remaining) rest
+         | None -> false) (dedup remaining))
+
+(** val filter_verdict :
+    bool -> bool -> bool -> bool -> bool -> str -> (str -> str) -> (nat ->
+    str -> bool) -> str list -> str -> z -> bool * bool **)
+
+let filter_verdict print_query print0 ansi tac sorted query strip m rs stdout code =
+  let t0 = terminator print0 in
+  let body = unsorted_body ansi tac strip m rs in
+  let out_ok =
+    if sorted
+    then (match strip_prefix (frame t0 (opt_part print_query query)) stdout with
+          | Some rest -> framed_perm (S (length body)) t0 body rest
+          | None -> false)
+    else str_eqb stdout (frame t0 (filter_parts print_query query body))
+  in
+  (out_ok, (Z.eqb code (exit_status EAccept body)))
+
+(** val exitOk : z **)
+
+let exitOk =
+  Z0
+
+(** val exitNoMatch : z **)
+
+let exitNoMatch =
+  Zpos XH
+
+(** val exitError : z **)
+
+let exitError =
+  Zpos (XO XH)
+
+(** val exitInterrupt : z **)
+
+let exitInterrupt =
+  Zpos (XO (XI (XO (XO (XO (XO (XO XH)))))))
+
+type item0 = { it_index : nat; it_text : str; it_orig : str option }
+
+type oopts = { o_ansi : bool; o_with_nth : bool; o_print0 : bool;
+               o_print_query : bool; o_sort : bool; o_tac : bool;
+               o_sync : bool }
+
+type delim =
+| DAwk
+| DStr of str
+
+type range = { r_begin : z; r_end : z }
+
+type nth_part =
+| PStr0 of str
+| PIndex
+| PNth0 of range list
+
+type nth_fn =
+| NthRanges of range list
+| NthTemplate of nth_part list
+
+(** val new_range0 : z -> z -> range **)
+
+let new_range0 b e =
+  let b0 =
+    if (&&) (Z.eqb b (Zpos XH)) (negb (Z.eqb e (Zpos XH))) then Z0 else b
+  in
+  let e0 = if Z.eqb e (Zneg XH) then Z0 else e in { r_begin = b0; r_end = e0 }
+
+type awk_state =
+| AwkNil
+| AwkBlack
+| AwkWhite
+
+(** val awk_loop : awk_state -> str -> str list -> str -> str list **)
+
+let rec awk_loop st0 cur acc = function
+| [] -> rev (match cur with
+             | [] -> acc
+             | _ :: _ -> (rev cur) :: acc)
+| r :: t0 ->
+  let white =
+    (||) (Z.eqb r (Zpos (XI (XO (XO XH)))))
+      (Z.eqb r (Zpos (XO (XO (XO (XO (XO XH)))))))
+  in
+  (match st0 with
+   | AwkNil ->
+     if white
+     then awk_loop AwkNil cur acc t0
+     else awk_loop AwkBlack (r :: []) acc t0
+   | AwkBlack ->
+     awk_loop (if white then AwkWhite else AwkBlack) (r :: cur) acc t0
+   | AwkWhite ->
+     if white
+     then awk_loop AwkWhite (r :: cur) acc t0
+     else awk_loop AwkBlack (r :: []) ((rev cur) :: acc) t0)
+
+(** val awk_tokenizer : str -> str list **)
+
+let awk_tokenizer s =
+  awk_loop AwkNil [] [] s
+
+(** val is_prefix : str -> str -> bool **)
+
+let rec is_prefix p s =
+  match p with
+  | [] -> true
+  | x :: p' ->
+    (match s with
+     | [] -> false
+     | y :: s' -> (&&) (Z.eqb x y) (is_prefix p' s'))
+
+(** val split_after_go : str -> nat -> str -> str -> str list **)
+
+let rec split_after_go sep0 skip cur s = match s with
+| [] -> (rev cur) :: []
+| c :: t0 ->
+  let skip' =
+    match skip with
+    | O -> if is_prefix sep0 s then length sep0 else O
+    | S _ -> skip
+  in
+  (match skip' with
+   | O -> split_after_go sep0 O (c :: cur) t0
+   | S k ->
+     (match k with
+      | O -> (rev (c :: cur)) :: (split_after_go sep0 O [] t0)
+      | S _ -> split_after_go sep0 k (c :: cur) t0))
+
+(** val split_after : str -> str -> str list **)
+
+let split_after sep0 s =
+  split_after_go sep0 O [] s
+
+(** val tokenize : delim -> str -> str list **)
+
+let tokenize d s =
+  match d with
+  | DAwk -> awk_tokenizer s
+  | DStr sep0 -> split_after sep0 s
+
+(** val collect_range : nat -> z -> str list -> str list res **)
+
+let rec collect_range fuel idx0 tokens0 =
+  match fuel with
+  | O -> Ok []
+  | S f ->
+    let n = Z.of_nat (length tokens0) in
+    bind (collect_range f (Z.add idx0 (Zpos XH)) tokens0) (fun rest ->
+      if (&&) (Z.leb (Zpos XH) idx0) (Z.leb idx0 n)
+      then bind (get tokens0 (Z.to_nat (Z.sub idx0 (Zpos XH)))) (fun t0 -> Ok
+             (t0 :: rest))
+      else Ok rest)
+
+(** val transform_one : str list -> range -> str res **)
+
+let transform_one tokens0 r =
+  let n = Z.of_nat (length tokens0) in
+  let adj0 = fun i -> if Z.ltb i Z0 then Z.add (Z.add i n) (Zpos XH) else i in
+  if Z.eqb r.r_begin r.r_end
+  then let idx0 = r.r_begin in
+       if Z.eqb idx0 Z0
+       then Ok (concat tokens0)
+       else let idx1 = adj0 idx0 in
+            if (&&) (Z.leb (Zpos XH) idx1) (Z.leb idx1 n)
+            then get tokens0 (Z.to_nat (Z.sub idx1 (Zpos XH)))
+            else Ok []
+  else let be =
+         if Z.eqb r.r_begin Z0
+         then ((Zpos XH), (adj0 r.r_end))
+         else if Z.eqb r.r_end Z0
+              then ((adj0 r.r_begin), n)
+              else ((adj0 r.r_begin), (adj0 r.r_end))
+       in
+       bind
+         (collect_range
+           (Z.to_nat (Z.add (Z.sub (snd be) (fst be)) (Zpos XH))) (fst be)
+           tokens0) (fun parts -> Ok (concat parts))
+
+(** val map_res : ('a1 -> 'a2 res) -> 'a1 list -> 'a2 list res **)
+
+let rec map_res f = function
+| [] -> Ok []
+| x :: t0 -> bind (f x) (fun y -> bind (map_res f t0) (fun r -> Ok (y :: r)))
+
+(** val join_transform : str list -> range list -> str res **)
+
+let join_transform tokens0 rs =
+  bind (map_res (transform_one tokens0) rs) (fun ts -> Ok (concat ts))
+
+(** val strip_suffix_rev : str -> str -> str option **)
+
+let rec strip_suffix_rev rsuf rs =
+  match rsuf with
+  | [] -> Some rs
+  | x :: a ->
+    (match rs with
+     | [] -> None
+     | y :: b -> if Z.eqb x y then strip_suffix_rev a b else None)
+
+(** val trim_suffix : str -> str -> str **)
+
+let trim_suffix s suf =
+  match strip_suffix_rev (rev suf) (rev s) with
+  | Some r -> rev r
+  | None -> s
+
+(** val is_space_byte : z -> bool **)
+
+let is_space_byte c =
+  (||) (Z.eqb c (Zpos (XO (XO (XO (XO (XO XH)))))))
+    ((&&) (Z.leb (Zpos (XI (XO (XO XH)))) c)
+      (Z.leb c (Zpos (XI (XO (XI XH))))))
+
+(** val trim_right_space : str -> str **)
+
+let trim_right_space s =
+  rev (drop_while is_space_byte (rev s))
+
+(** val strip_last_delimiter : delim -> str -> str **)
+
+let strip_last_delimiter d s =
+  trim_right_space (match d with
+                    | DAwk -> s
+                    | DStr sep0 -> trim_suffix s sep0)
+
+(** val itoa_fuel : nat -> z -> str -> str **)
+
+let rec itoa_fuel fuel n acc =
+  match fuel with
+  | O -> acc
+  | S f ->
+    let acc' =
+      (Z.add (Zpos (XO (XO (XO (XO (XI XH))))))
+        (Z.modulo n (Zpos (XO (XI (XO XH)))))) :: acc
+    in
+    if Z.eqb (Z.div n (Zpos (XO (XI (XO XH))))) Z0
+    then acc'
+    else itoa_fuel f (Z.div n (Zpos (XO (XI (XO XH))))) acc'
+
+(** val itoa : z -> str **)
+
+let itoa n =
+  itoa_fuel (S (S (S (S (S (S (S (S (S (S (S (S (S (S (S (S (S (S (S (S
+    O)))))))))))))))))))) n []
+
+(** val template_loop :
+    delim -> str list -> z -> nth_part list -> str -> str res **)
+
+let rec template_loop d tokens0 index ps acc =
+  match ps with
+  | [] -> Ok acc
+  | n :: r ->
+    (match n with
+     | PStr0 s -> template_loop d tokens0 index r (app acc s)
+     | PIndex ->
+       template_loop d tokens0 index r
+         (if Z.leb Z0 index then app acc (itoa index) else acc)
+     | PNth0 rs ->
+       bind (join_transform tokens0 rs) (fun s ->
+         template_loop d tokens0 index r (app acc (strip_last_delimiter d s))))
+
+(** val apply_nth : delim -> nth_fn -> str list -> z -> str res **)
+
+let apply_nth d f tokens0 index =
+  match f with
+  | NthRanges rs -> join_transform tokens0 rs
+  | NthTemplate ps -> template_loop d tokens0 index ps []
+
+(** val ansi_processor : (str -> str) -> oopts -> str -> str **)
+
+let ansi_processor strip o data =
+  if o.o_ansi then strip data else data
+
+(** val trans :
+    (str -> str) -> (nat -> str -> str) -> oopts -> nat -> str -> item0 **)
+
+let trans strip nth_transform o idx0 data =
+  if o.o_with_nth
+  then { it_index = idx0; it_text =
+         (ansi_processor strip o (nth_transform idx0 data)); it_orig = (Some
+         data) }
+  else { it_index = idx0; it_text = (ansi_processor strip o data); it_orig =
+         None }
+
+(** val as_string : (str -> str) -> (str -> str) -> bool -> item0 -> str **)
+
+let as_string strip rt strip_ansi it =
+  match it.it_orig with
+  | Some orig -> if strip_ansi then strip orig else orig
+  | None -> rt it.it_text
+
+(** val printer : bool -> str -> str -> str **)
+
+let printer print0 out s =
+  app out (app s ((if print0 then Z0 else Zpos (XO (XI (XO XH)))) :: []))
+
+(** val stream_loop :
+    (str -> str) -> (str -> str) -> (nat -> str -> str) -> (item0 -> bool) ->
+    oopts -> nat -> str list -> str -> bool -> str * bool **)
+
+let rec stream_loop strip rt nth_transform matches o idx0 rs out found =
+  match rs with
+  | [] -> (out, found)
+  | r :: t0 ->
+    let it = trans strip nth_transform o idx0 r in
+    if matches it
+    then stream_loop strip rt nth_transform matches o (S idx0) t0
+           (printer o.o_print0 out (as_string strip rt o.o_ansi it)) true
+    else stream_loop strip rt nth_transform matches o (S idx0) t0 out found
+
+(** val build_items :
+    (str -> str) -> (nat -> str -> str) -> oopts -> nat -> str list -> item0
+    list **)
+
+let rec build_items strip nth_transform o idx0 = function
+| [] -> []
+| r :: t0 ->
+  (trans strip nth_transform o idx0 r) :: (build_items strip nth_transform o
+                                            (S idx0) t0)
+
+(** val scan :
+    (item0 -> bool) -> (item0 list -> item0 list) -> bool -> oopts -> item0
+    list -> item0 list **)
+
+let scan matches rank_sort sortable o items =
+  let matched = filter matches items in
+  if (&&) o.o_sort sortable
+  then rank_sort matched
+  else if o.o_tac then rev matched else matched
+
+(** val print_loop :
+    (str -> str) -> (str -> str) -> oopts -> item0 list -> str -> bool ->
+    str * bool **)
+
+let rec print_loop strip rt o m out found =
+  match m with
+  | [] -> (out, found)
+  | it :: t0 ->
+    print_loop strip rt o t0
+      (printer o.o_print0 out (as_string strip rt o.o_ansi it)) true
+
+(** val filter_mode :
+    (str -> str) -> (str -> str) -> (nat -> str -> str) -> (item0 -> bool) ->
+    (item0 list -> item0 list) -> bool -> oopts -> str -> str list -> str * z **)
+
+let filter_mode strip rt nth_transform matches rank_sort sortable o query rs =
+  let out0 = if o.o_print_query then printer o.o_print0 [] query else [] in
+  let streaming = (&&) ((&&) (negb o.o_sort) (negb o.o_tac)) (negb o.o_sync)
+  in
+  let r =
+    if streaming
+    then stream_loop strip rt nth_transform matches o O rs out0 false
+    else print_loop strip rt o
+           (scan matches rank_sort sortable o
+             (build_items strip nth_transform o O rs)) out0 false
+  in
+  ((fst r), (if snd r then exitOk else exitNoMatch))
+
+type topts = { to_ansi : bool; to_print0 : bool; to_print_query : bool;
+               to_expect : bool; to_multi : nat;
+               to_accept_nth : nth_fn option; to_delim : delim }
+
+type smap = (nat * (nat * item0)) list
+
+type sstate0 = smap * nat
+
+(** val m_find : nat -> smap -> (nat * item0) option **)
+
+let rec m_find k = function
+| [] -> None
+| p :: r -> let (k', v) = p in if Nat.eqb k k' then Some v else m_find k r
+
+(** val m_delete : nat -> smap -> smap **)
+
+let rec m_delete k = function
+| [] -> []
+| p :: r ->
+  let (k', v) = p in
+  if Nat.eqb k k' then m_delete k r else (k', v) :: (m_delete k r)
+
+(** val select_item0 : nat -> item0 -> sstate0 -> sstate0 * bool **)
+
+let select_item0 multi it s =
+  if Nat.leb multi (length (fst s))
+  then (s, false)
+  else (match m_find it.it_index (fst s) with
+        | Some _ -> (s, true)
+        | None ->
+          ((((it.it_index, ((snd s), it)) :: (fst s)), (S (snd s))), true))
+
+(** val deselect_item0 : item0 -> sstate0 -> sstate0 **)
+
+let deselect_item0 it s =
+  ((m_delete it.it_index (fst s)), (snd s))
+
+(** val toggle_item0 : nat -> item0 -> sstate0 -> sstate0 * bool **)
+
+let toggle_item0 multi it s =
+  match m_find it.it_index (fst s) with
+  | Some _ -> ((deselect_item0 it s), true)
+  | None -> select_item0 multi it s
+
+(** val insert_by_time :
+    (nat * item0) -> (nat * item0) list -> (nat * item0) list **)
+
+let rec insert_by_time e l = match l with
+| [] -> e :: []
+| x :: r ->
+  if Nat.ltb (fst x) (fst e) then x :: (insert_by_time e r) else e :: l
+
+(** val sort_selected : smap -> item0 list **)
+
+let sort_selected m =
+  map snd (fold_right insert_by_time [] (map snd m))
+
+type term = { t_merger : item0 list; t_cy : z; t_sel : sstate0;
+              t_queue : str list; t_input : str; t_pressed : str;
+              t_reading : bool; t_count : nat }
+
+(** val with_sel0 : term -> sstate0 -> term **)
+
+let with_sel0 t0 s =
+  { t_merger = t0.t_merger; t_cy = t0.t_cy; t_sel = s; t_queue = t0.t_queue;
+    t_input = t0.t_input; t_pressed = t0.t_pressed; t_reading = t0.t_reading;
+    t_count = t0.t_count }
+
+(** val with_cy : term -> z -> term **)
+
+let with_cy t0 cy =
+  { t_merger = t0.t_merger; t_cy = cy; t_sel = t0.t_sel; t_queue =
+    t0.t_queue; t_input = t0.t_input; t_pressed = t0.t_pressed; t_reading =
+    t0.t_reading; t_count = t0.t_count }
+
+(** val current_item0 : term -> item0 option res **)
+
+let current_item0 t0 =
+  let cnt = Z.of_nat (length t0.t_merger) in
+  if (&&) ((&&) (Z.leb Z0 t0.t_cy) (Z.ltb Z0 cnt)) (Z.ltb t0.t_cy cnt)
+  then bind (get t0.t_merger (Z.to_nat t0.t_cy)) (fun it -> Ok (Some it))
+  else Ok None
+
+(** val constrain0 : z -> z -> z -> z **)
+
+let constrain0 v lo hi =
+  if Z.ltb v lo then lo else if Z.ltb hi v then hi else v
+
+(** val vset0 : term -> z -> term **)
+
+let vset0 t0 o =
+  with_cy t0
+    (constrain0 o Z0 (Z.sub (Z.of_nat (length t0.t_merger)) (Zpos XH)))
+
+(** val vmove0 : term -> z -> term **)
+
+let vmove0 t0 o =
+  vset0 t0 (Z.add t0.t_cy o)
+
+(** val accept_nth :
+    (str -> str) -> (str -> str) -> topts -> nth_fn -> item0 -> str res **)
+
+let accept_nth strip rt o f it =
+  let tokens0 = tokenize o.to_delim (as_string strip rt o.to_ansi it) in
+  bind (apply_nth o.to_delim f tokens0 (Z.of_nat it.it_index)) (fun s -> Ok
+    (strip_last_delimiter o.to_delim s))
+
+(** val out_transform :
+    (str -> str) -> (str -> str) -> topts -> item0 -> str res **)
+
+let out_transform strip rt o it =
+  match o.to_accept_nth with
+  | Some f -> accept_nth strip rt o f it
+  | None -> Ok (as_string strip rt o.to_ansi it)
+
+(** val print_items :
+    (str -> str) -> (str -> str) -> topts -> item0 list -> str -> str res **)
+
+let rec print_items strip rt o its out =
+  match its with
+  | [] -> Ok out
+  | it :: r ->
+    bind (out_transform strip rt o it) (fun s ->
+      print_items strip rt o r (printer o.to_print0 out s))
+
+(** val output0 :
+    (str -> str) -> (str -> str) -> topts -> term -> (str * bool) res **)
+
+let output0 strip rt o t0 =
+  let out = if o.to_print_query then printer o.to_print0 [] t0.t_input else []
+  in
+  let out0 = if o.to_expect then printer o.to_print0 out t0.t_pressed else out
+  in
+  let out1 = fold_left (printer o.to_print0) t0.t_queue out0 in
+  (match fst t0.t_sel with
+   | [] ->
+     bind (current_item0 t0) (fun cur ->
+       match cur with
+       | Some it ->
+         bind (print_items strip rt o (it :: []) out1) (fun out2 -> Ok (out2,
+           true))
+       | None -> Ok (out1, false))
+   | _ :: _ ->
+     bind (print_items strip rt o (sort_selected (fst t0.t_sel)) out1)
+       (fun out2 -> Ok (out2, true)))
+
+type action0 =
+| AToggle0
+| ASelect0
+| ADeselect0
+| ASelectAll0
+| ADeselectAll0
+| AToggleAll0
+| AClearSelection0
+| AToggleDown
+| AToggleUp
+| AUp0
+| ADown0
+| AFirst0
+| ALast0
+| APos0 of z
+| APrint of str
+| AUpdate0 of str * item0 list * z
+| AAccept
+| AAcceptNonEmpty
+| AAcceptOrPrintQuery
+| APrintQuery
+| AAbort
+| AFatal
+| AExpect of str
+
+type outcome1 =
+| Running of term
+| Exited of str * z
+
+(** val select_all_loop0 : nat -> item0 list -> sstate0 -> sstate0 **)
+
+let rec select_all_loop0 multi its s =
+  match its with
+  | [] -> s
+  | it :: r ->
+    let x = select_item0 multi it s in
+    if snd x then select_all_loop0 multi r (fst x) else fst x
+
+(** val deselect_all_loop0 : item0 list -> sstate0 -> sstate0 **)
+
+let rec deselect_all_loop0 its s =
+  match its with
+  | [] -> s
+  | it :: r ->
+    (match fst s with
+     | [] -> s
+     | _ :: _ -> deselect_all_loop0 r (deselect_item0 it s))
+
+(** val toggle_all_1 :
+    nat -> item0 list -> sstate0 -> nat list -> sstate0 * nat list **)
+
+let rec toggle_all_1 i its s prev =
+  match its with
+  | [] -> (s, prev)
+  | it :: r ->
+    (match fst s with
+     | [] -> (s, prev)
+     | _ :: _ ->
+       (match m_find it.it_index (fst s) with
+        | Some _ -> toggle_all_1 (S i) r (deselect_item0 it s) (i :: prev)
+        | None -> toggle_all_1 (S i) r s prev))
+
+(** val toggle_all_2 :
+    nat -> nat -> item0 list -> sstate0 -> nat list -> sstate0 **)
+
+let rec toggle_all_2 multi i its s prev =
+  match its with
+  | [] -> s
+  | it :: r ->
+    if existsb (Nat.eqb i) prev
+    then toggle_all_2 multi (S i) r s prev
+    else let x = select_item0 multi it s in
+         if snd x then toggle_all_2 multi (S i) r (fst x) prev else fst x
+
+(** val toggle_current0 : topts -> term -> (term * bool) res **)
+
+let toggle_current0 o t0 =
+  bind (current_item0 t0) (fun cur ->
+    match cur with
+    | Some it ->
+      let x = toggle_item0 o.to_multi it t0.t_sel in
+      Ok ((with_sel0 t0 (fst x)), (snd x))
+    | None -> Ok (t0, false))
+
+(** val req_close :
+    (str -> str) -> (str -> str) -> topts -> term -> outcome1 res **)
+
+let req_close strip rt o t0 =
+  bind (output0 strip rt o t0) (fun r -> Ok (Exited ((fst r),
+    (if snd r then exitOk else exitNoMatch))))
+
+(** val req_print_query : topts -> term -> outcome1 **)
+
+let req_print_query o t0 =
+  Exited ((printer o.to_print0 [] t0.t_input), exitOk)
+
+(** val do_action0 :
+    (str -> str) -> (str -> str) -> topts -> term -> action0 -> outcome1 res **)
+
+let do_action0 strip rt o t0 a =
+  let multi = o.to_multi in
+  let nonempty = negb (Nat.eqb (length t0.t_merger) O) in
+  (match a with
+   | AToggle0 ->
+     if (&&) (Nat.ltb O multi) nonempty
+     then bind (toggle_current0 o t0) (fun x -> Ok (Running (fst x)))
+     else Ok (Running t0)
+   | ASelect0 ->
+     bind (current_item0 t0) (fun cur ->
+       match cur with
+       | Some it ->
+         if Nat.ltb O multi
+         then (match m_find it.it_index (fst t0.t_sel) with
+               | Some _ -> Ok (Running t0)
+               | None ->
+                 Ok (Running
+                   (with_sel0 t0 (fst (select_item0 multi it t0.t_sel)))))
+         else Ok (Running t0)
+       | None -> Ok (Running t0))
+   | ADeselect0 ->
+     bind (current_item0 t0) (fun cur ->
+       match cur with
+       | Some it ->
+         if Nat.ltb O multi
+         then (match m_find it.it_index (fst t0.t_sel) with
+               | Some _ ->
+                 Ok (Running (with_sel0 t0 (deselect_item0 it t0.t_sel)))
+               | None -> Ok (Running t0))
+         else Ok (Running t0)
+       | None -> Ok (Running t0))
+   | ASelectAll0 ->
+     if Nat.ltb O multi
+     then Ok (Running
+            (with_sel0 t0 (select_all_loop0 multi t0.t_merger t0.t_sel)))
+     else Ok (Running t0)
+   | ADeselectAll0 ->
+     if Nat.ltb O multi
+     then Ok (Running
+            (with_sel0 t0 (deselect_all_loop0 t0.t_merger t0.t_sel)))
+     else Ok (Running t0)
+   | AToggleAll0 ->
+     if Nat.ltb O multi
+     then let x = toggle_all_1 O t0.t_merger t0.t_sel [] in
+          Ok (Running
+          (with_sel0 t0 (toggle_all_2 multi O t0.t_merger (fst x) (snd x))))
+     else Ok (Running t0)
+   | AClearSelection0 ->
+     if Nat.ltb O multi
+     then Ok (Running (with_sel0 t0 ([], (snd t0.t_sel))))
+     else Ok (Running t0)
+   | AToggleDown ->
+     if (&&) (Nat.ltb O multi) nonempty
+     then bind (toggle_current0 o t0) (fun x -> Ok (Running
+            (if snd x then vmove0 (fst x) (Zneg XH) else fst x)))
+     else Ok (Running t0)
+   | AToggleUp ->
+     if (&&) (Nat.ltb O multi) nonempty
+     then bind (toggle_current0 o t0) (fun x -> Ok (Running
+            (if snd x then vmove0 (fst x) (Zpos XH) else fst x)))
+     else Ok (Running t0)
+   | AUp0 -> Ok (Running (vmove0 t0 (Zpos XH)))
+   | ADown0 -> Ok (Running (vmove0 t0 (Zneg XH)))
+   | AFirst0 -> Ok (Running (vset0 t0 Z0))
+   | ALast0 ->
+     Ok (Running (vset0 t0 (Z.sub (Z.of_nat (length t0.t_merger)) (Zpos XH))))
+   | APos0 n ->
+     let n0 =
+       if Z.ltb Z0 n
+       then Z.sub n (Zpos XH)
+       else if Z.ltb n Z0 then Z.add n (Z.of_nat (length t0.t_merger)) else n
+     in
+     Ok (Running (vset0 t0 n0))
+   | APrint s ->
+     Ok (Running { t_merger = t0.t_merger; t_cy = t0.t_cy; t_sel = t0.t_sel;
+       t_queue = (app t0.t_queue (s :: [])); t_input = t0.t_input;
+       t_pressed = t0.t_pressed; t_reading = t0.t_reading; t_count =
+       t0.t_count })
+   | AUpdate0 (q, m, cy) ->
+     Ok (Running { t_merger = m; t_cy = cy; t_sel = t0.t_sel; t_queue =
+       t0.t_queue; t_input = q; t_pressed = t0.t_pressed; t_reading =
+       t0.t_reading; t_count = t0.t_count })
+   | AAccept -> req_close strip rt o t0
+   | AAcceptNonEmpty ->
+     if (||) ((||) (negb (Nat.eqb (length (fst t0.t_sel)) O)) nonempty)
+          ((&&) (negb t0.t_reading) (Nat.eqb t0.t_count O))
+     then req_close strip rt o t0
+     else Ok (Running t0)
+   | AAcceptOrPrintQuery ->
+     if (||) (negb (Nat.eqb (length (fst t0.t_sel)) O)) nonempty
+     then req_close strip rt o t0
+     else Ok (req_print_query o t0)
+   | APrintQuery -> Ok (req_print_query o t0)
+   | AAbort -> Ok (Exited ([], exitInterrupt))
+   | AFatal -> Ok (Exited ([], exitError))
+   | AExpect key0 ->
+     req_close strip rt o { t_merger = t0.t_merger; t_cy = t0.t_cy; t_sel =
+       t0.t_sel; t_queue = t0.t_queue; t_input = t0.t_input; t_pressed =
+       key0; t_reading = t0.t_reading; t_count = t0.t_count })
+
+(** val run_actions :
+    (str -> str) -> (str -> str) -> topts -> term -> action0 list -> outcome1
+    res **)
+
+let rec run_actions strip rt o t0 = function
+| [] -> Ok (Running t0)
+| a :: r ->
+  bind (do_action0 strip rt o t0 a) (fun x ->
+    match x with
+    | Running t' -> run_actions strip rt o t' r
+    | Exited (out, code) -> Ok (Exited (out, code)))
+
+(** val select1_exit0 :
+    (str -> str) -> (str -> str) -> topts -> bool -> bool -> str -> item0
+    list -> (str * z) option res **)
+
+let select1_exit0 strip rt o select1 exit0 query merger =
+  let count0 = length merger in
+  if (||) ((&&) select1 (Nat.ltb (S O) count0))
+       ((&&) ((&&) exit0 (negb select1)) (Nat.ltb O count0))
+  then Ok None
+  else if (||) ((&&) exit0 (Nat.eqb count0 O))
+            ((&&) select1 (Nat.eqb count0 (S O)))
+       then let out =
+              if o.to_print_query then printer o.to_print0 [] query else []
+            in
+            let out0 = if o.to_expect then printer o.to_print0 out [] else out
+            in
+            bind (print_items strip rt o merger out0) (fun out1 -> Ok (Some
+              (out1, (if Nat.eqb count0 O then exitNoMatch else exitOk))))
+       else Ok None
+
+(** val interactive :
+    (str -> str) -> (str -> str) -> bool -> topts -> bool -> bool -> str ->
+    item0 list -> nat -> action0 list -> outcome1 res **)
+
+let interactive strip rt parse_ok o select1 exit0 query merger count0 acts =
+  if negb parse_ok
+  then Ok (Exited ([], exitError))
+  else bind (select1_exit0 strip rt o select1 exit0 query merger) (fun s ->
+         match s with
+         | Some p -> let (out, code) = p in Ok (Exited (out, code))
+         | None ->
+           run_actions strip rt o { t_merger = merger; t_cy = Z0; t_sel =
+             ([], O); t_queue = []; t_input = query; t_pressed = [];
+             t_reading = false; t_count = count0 } acts)
+
+(** val tbl_lookup : (str * str) list -> str -> str **)
+
+let rec tbl_lookup tbl s =
+  match tbl with
+  | [] -> s
+  | p :: r -> let (k, v) = p in if str_eqb k s then v else tbl_lookup r s
+
+(** val as_tbl : val0 -> (str * str) list **)
+
+let as_tbl v =
+  map (fun p -> ((as_str (arg p O)), (as_str (arg p (S O))))) (as_list v)
+
+(** val as_bits : val0 -> bool list **)
+
+let as_bits v =
+  map as_bool (as_list v)
+
+(** val match_by_index : bool list -> item0 -> bool **)
+
+let match_by_index bits0 it =
+  nth it.it_index bits0 false
+
+(** val as_oopts : val0 -> oopts **)
+
+let as_oopts v =
+  { o_ansi = (as_bool (arg v O)); o_with_nth = (as_bool (arg v (S O)));
+    o_print0 = (as_bool (arg v (S (S O)))); o_print_query =
+    (as_bool (arg v (S (S (S O))))); o_sort =
+    (as_bool (arg v (S (S (S (S O)))))); o_tac =
+    (as_bool (arg v (S (S (S (S (S O))))))); o_sync =
+    (as_bool (arg v (S (S (S (S (S (S O)))))))) }
+
+(** val d_filter : val0 -> val0 **)
+
+let d_filter a =
+  let o = as_oopts (arg a O) in
+  let r =
+    filter_mode (tbl_lookup (as_tbl (arg a (S (S (S O))))))
+      (tbl_lookup (as_tbl (arg a (S (S (S (S O))))))) (fun _ s -> s)
+      (match_by_index (as_bits (arg a (S (S (S (S (S O)))))))) (fun l -> l)
+      (as_bool (arg a (S (S (S (S (S (S O)))))))) o (as_str (arg a (S O)))
+      (as_strs (arg a (S (S O))))
+  in
+  VL ((vstr (fst r)) :: ((VI (snd r)) :: []))
+
+(** val d_filter_spec : val0 -> val0 **)
+
+let d_filter_spec a =
+  let o = as_oopts (arg a O) in
+  let bits0 = as_bits (arg a (S (S (S (S O))))) in
+  let r =
+    filter_verdict o.o_print_query o.o_print0 o.o_ansi o.o_tac
+      (as_bool (arg a (S (S (S (S (S O))))))) (as_str (arg a (S O)))
+      (tbl_lookup (as_tbl (arg a (S (S (S O)))))) (fun i _ ->
+      nth i bits0 false) (as_strs (arg a (S (S O))))
+      (as_str (arg a (S (S (S (S (S (S O))))))))
+      (as_int (arg a (S (S (S (S (S (S (S O)))))))))
+  in
+  VL ((vbool (fst r)) :: ((vbool (snd r)) :: []))
+
+(** val as_ranges : val0 -> range list **)
+
+let as_ranges v =
+  map (fun p -> new_range0 (as_int (arg p O)) (as_int (arg p (S O))))
+    (as_list v)
+
+(** val as_part : val0 -> nth_part **)
+
+let as_part v =
+  let t0 = as_int (arg v O) in
+  if Z.eqb t0 Z0
+  then PStr0 (as_str (arg v (S O)))
+  else if Z.eqb t0 (Zpos XH) then PIndex else PNth0 (as_ranges (arg v (S O)))
+
+(** val as_nth_fn : val0 -> nth_fn option **)
+
+let as_nth_fn v =
+  match as_list v with
+  | [] -> None
+  | t0 :: l ->
+    (match l with
+     | [] -> None
+     | x :: _ ->
+       Some
+         (if Z.eqb (as_int t0) Z0
+          then NthRanges (as_ranges x)
+          else NthTemplate (map as_part (as_list x))))
+
+(** val as_delim : val0 -> delim **)
+
+let as_delim v =
+  match as_list v with
+  | [] -> DAwk
+  | s :: _ -> DStr (as_str s)
+
+(** val as_topts : val0 -> topts **)
+
+let as_topts v =
+  { to_ansi = (as_bool (arg v O)); to_print0 = (as_bool (arg v (S O)));
+    to_print_query = (as_bool (arg v (S (S O)))); to_expect =
+    (as_bool (arg v (S (S (S O))))); to_multi =
+    (as_nat (arg v (S (S (S (S O)))))); to_accept_nth =
+    (as_nth_fn (arg v (S (S (S (S (S O))))))); to_delim =
+    (as_delim (arg v (S (S (S (S (S (S O)))))))) }
+
+(** val pick_items : item0 list -> nat list -> item0 list **)
+
+let pick_items items idx0 =
+  concat
+    (map (fun i -> match get items i with
+                   | Ok it -> it :: []
+                   | Err _ -> []) idx0)
+
+(** val as_action : item0 list -> val0 -> action0 **)
+
+let as_action items v =
+  let t0 = as_int (arg v O) in
+  if Z.eqb t0 Z0
+  then AToggle0
+  else if Z.eqb t0 (Zpos XH)
+       then ASelect0
+       else if Z.eqb t0 (Zpos (XO XH))
+            then ADeselect0
+            else if Z.eqb t0 (Zpos (XI XH))
+                 then ASelectAll0
+                 else if Z.eqb t0 (Zpos (XO (XO XH)))
+                      then ADeselectAll0
+                      else if Z.eqb t0 (Zpos (XI (XO XH)))
+                           then AToggleAll0
+                           else if Z.eqb t0 (Zpos (XO (XI XH)))
+                                then AClearSelection0
+                                else if Z.eqb t0 (Zpos (XI (XI XH)))
+                                     then AToggleDown
+                                     else if Z.eqb t0 (Zpos (XO (XO (XO XH))))
+                                          then AToggleUp
+                                          else if Z.eqb t0 (Zpos (XI (XO (XO
+                                                    XH))))
+                                               then AUp0
+                                               else if Z.eqb t0 (Zpos (XO (XI
+                                                         (XO XH))))
+                                                    then ADown0
+                                                    else if Z.eqb t0 (Zpos
+                                                              (XI (XI (XO
+                                                              XH))))
+                                                         then AFirst0
+                                                         else if Z.eqb t0
+                                                                   (Zpos (XO
+                                                                   (XO (XI
+                                                                   XH))))
+                                                              then ALast0
+                                                              else if 
+                                                                    Z.eqb t0
+                                                                    (Zpos (XI
+                                                                    (XO (XI
+                                                                    XH))))
+                                                                   then 
+                                                                    APos0
+                                                                    (as_int
+                                                                    (arg v (S
+                                                                    O)))
+                                                                   else 
+                                                                    if 
+                                                                    Z.eqb t0
+                                                                    (Zpos (XO
+                                                                    (XI (XI
+                                                                    XH))))
+                                                                    then 
+                                                                    APrint
+                                                                    (as_str
+                                                                    (arg v (S
+                                                                    O)))
+                                                                    else 
+                                                                    if 
+                                                                    Z.eqb t0
+                                                                    (Zpos (XI
+                                                                    (XI (XI
+                                                                    XH))))
+                                                                    then 
+                                                                    AUpdate0
+                                                                    ((as_str
+                                                                    (arg v (S
+                                                                    O))),
+                                                                    (pick_items
+                                                                    items
+                                                                    (map
+                                                                    as_nat
+                                                                    (as_list
+                                                                    (arg v (S
+                                                                    (S O)))))),
+                                                                    (as_int
+                                                                    (arg v (S
+                                                                    (S (S
+                                                                    O))))))
+                                                                    else 
+                                                                    if 
+                                                                    Z.eqb t0
+                                                                    (Zpos (XO
+                                                                    (XO (XO
+                                                                    (XO
+                                                                    XH)))))
+                                                                    then 
+                                                                    AAccept
+                                                                    else 
+                                                                    if 
+                                                                    Z.eqb t0
+                                                                    (Zpos (XI
+                                                                    (XO (XO
+                                                                    (XO
+                                                                    XH)))))
+                                                                    then 
+                                                                    AAcceptNonEmpty
+                                                                    else 
+                                                                    if 
+                                                                    Z.eqb t0
+                                                                    (Zpos (XO
+                                                                    (XI (XO
+                                                                    (XO
+                                                                    XH)))))
+                                                                    then 
+                                                                    AAcceptOrPrintQuery
+                                                                    else 
+                                                                    if 
+                                                                    Z.eqb t0
+                                                                    (Zpos (XI
+                                                                    (XI (XO
+                                                                    (XO
+                                                                    XH)))))
+                                                                    then 
+                                                                    APrintQuery
+                                                                    else 
+                                                                    if 
+                                                                    Z.eqb t0
+                                                                    (Zpos (XO
+                                                                    (XO (XI
+                                                                    (XO
+                                                                    XH)))))
+                                                                    then 
+                                                                    AAbort
+                                                                    else 
+                                                                    if 
+                                                                    Z.eqb t0
+                                                                    (Zpos (XI
+                                                                    (XO (XI
+                                                                    (XO
+                                                                    XH)))))
+                                                                    then 
+                                                                    AFatal
+                                                                    else 
+                                                                    AExpect
+                                                                    (as_str
+                                                                    (arg v (S
+                                                                    O)))
+
+(** val d_interactive : val0 -> val0 **)
+
+let d_interactive a =
+  let o = as_topts (arg a (S O)) in
+  let strip =
+    tbl_lookup (as_tbl (arg a (S (S (S (S (S (S (S (S (S O)))))))))))
+  in
+  let rt =
+    tbl_lookup (as_tbl (arg a (S (S (S (S (S (S (S (S (S (S O))))))))))))
+  in
+  let oo = { o_ansi = o.to_ansi; o_with_nth = (as_bool (arg a (S (S O))));
+    o_print0 = o.to_print0; o_print_query = o.to_print_query; o_sort = false;
+    o_tac = false; o_sync = false }
+  in
+  let records = as_strs (arg a (S (S (S (S (S (S O))))))) in
+  let items = build_items strip (fun _ s -> s) oo O records in
+  let merger =
+    pick_items items
+      (map as_nat (as_list (arg a (S (S (S (S (S (S (S O))))))))))
+  in
+  (match interactive strip rt (as_bool (arg a O)) o
+           (as_bool (arg a (S (S (S O)))))
+           (as_bool (arg a (S (S (S (S O))))))
+           (as_str (arg a (S (S (S (S (S O))))))) merger (length records)
+           (map (as_action items)
+             (as_list (arg a (S (S (S (S (S (S (S (S O))))))))))) with
+   | Ok a0 ->
+     (match a0 with
+      | Running _ -> VL ((VI Z0) :: [])
+      | Exited (out, code) ->
+        VL ((VI (Zpos XH)) :: ((vstr out) :: ((VI code) :: []))))
+   | Err _ -> verr)
+
+(** val as_event : val0 -> sel_event **)
+
+let as_event v =
+  let t0 = as_int (arg v O) in
+  let l = map as_nat (as_list (arg v (S O))) in
+  if Z.eqb t0 Z0
+  then SToggle (as_nat (arg v (S O)))
+  else if Z.eqb t0 (Zpos XH)
+       then SSelect (as_nat (arg v (S O)))
+       else if Z.eqb t0 (Zpos (XO XH))
+            then SDeselect (as_nat (arg v (S O)))
+            else if Z.eqb t0 (Zpos (XI XH))
+                 then SSelectAll l
+                 else if Z.eqb t0 (Zpos (XO (XO XH)))
+                      then SDeselectAll l
+                      else if Z.eqb t0 (Zpos (XI (XO XH)))
+                           then SToggleAll l
+                           else if Z.eqb t0 (Zpos (XO (XI XH)))
+                                then SClear
+                                else SPrint (as_str (arg v (S O)))
+
+(** val as_ending : val0 -> ending **)
+
+let as_ending v =
+  let t0 = as_int v in
+  if Z.eqb t0 Z0
+  then EAccept
+  else if Z.eqb t0 (Zpos XH)
+       then EPrintQuery
+       else if Z.eqb t0 (Zpos (XO XH)) then EAbort else EError
+
+(** val d_session_spec : val0 -> val0 **)
+
+let d_session_spec a =
+  let records = as_strs (arg a (S (S (S (S O))))) in
+  let strip = tbl_lookup (as_tbl (arg a (S (S (S (S (S O))))))) in
+  let ansi = as_bool (arg a (S (S (S O)))) in
+  let field0 =
+    as_nat (arg a (S (S (S (S (S (S (S (S (S (S (S (S O)))))))))))))
+  in
+  let present = fun i ->
+    let s = shown ansi strip (nth i records []) in
+    (match field0 with
+     | O -> s
+     | S k -> trim_right0 (nth k (awk_fields s) []))
+  in
+  let cur =
+    let c = as_int (arg a (S (S (S (S (S (S (S (S O))))))))) in
+    if Z.ltb c Z0 then None else Some (Z.to_nat c)
+  in
+  let r =
+    session_result (terminator (as_bool (arg a O))) (as_bool (arg a (S O)))
+      (as_str (arg a (S (S (S (S (S (S (S (S (S (S O))))))))))))
+      (as_bool (arg a (S (S O))))
+      (as_str (arg a (S (S (S (S (S (S (S (S (S (S (S O))))))))))))) present
+      (as_nat (arg a (S (S (S (S (S (S O))))))))
+      (map as_event (as_list (arg a (S (S (S (S (S (S (S O)))))))))) cur
+      (as_ending (arg a (S (S (S (S (S (S (S (S (S O)))))))))))
+  in
+  VL ((vstr (fst r)) :: ((VI (snd r)) :: []))
+
+(** val dispatch_output : z -> val0 -> val0 option **)
+
+let dispatch_output op a =
+  if Z.eqb op (Zpos (XI (XO (XI (XI (XI (XI (XO (XI (XO XH))))))))))
+  then Some (d_filter a)
+  else if Z.eqb op (Zpos (XO (XI (XI (XI (XI (XI (XO (XI (XO XH))))))))))
+       then Some (d_filter_spec a)
+       else if Z.eqb op (Zpos (XI (XI (XI (XI (XI (XI (XO (XI (XO XH))))))))))
+            then Some (d_interactive a)
+            else if Z.eqb op (Zpos (XO (XO (XO (XO (XO (XO (XI (XI (XO
+                      XH))))))))))
+                 then Some (d_session_spec a)
+                 else None
+
 (** val chSP : z **)
 
 let chSP =
@@ -15378,10 +16770,10 @@ type ttype =
 | TermSuffix
 | TermEqual
 
-type term = { tm_typ : ttype; tm_inv : bool; tm_text : str; tm_cs : bool;
-              tm_nm : bool }
+type term0 = { tm_typ : ttype; tm_inv : bool; tm_text : str; tm_cs : 
+               bool; tm_nm : bool }
 
-type termSet = term list
+type termSet = term0 list
 
 type popts = { p_fuzzy : bool; p_v2 : bool; p_extended : bool;
                p_case : case_mode; p_normalize : bool; p_forward : bool;
@@ -15757,7 +17149,7 @@ let z_of_kind = function
 | KSuffix -> Zpos (XO (XO XH))
 | KEqual -> Zpos (XI (XO XH))
 
-(** val v_term : term -> val0 **)
+(** val v_term : term0 -> val0 **)
 
 let v_term t0 =
   VL ((VI
@@ -16116,20 +17508,20 @@ let export_line name value =
     (c_sp :: (app name ((Zpos (XI (XO (XI (XI (XI
                XH)))))) :: (escape_single_quote value))))
 
-(** val strip_prefix : str -> str -> str option **)
+(** val strip_prefix0 : str -> str -> str option **)
 
-let rec strip_prefix p s =
+let rec strip_prefix0 p s =
   match p with
   | [] -> Some s
   | a :: p' ->
     (match s with
      | [] -> None
-     | b :: s' -> if Z.eqb a b then strip_prefix p' s' else None)
+     | b :: s' -> if Z.eqb a b then strip_prefix0 p' s' else None)
 
 (** val has_prefix1 : str -> str -> bool **)
 
 let has_prefix1 p s =
-  match strip_prefix p s with
+  match strip_prefix0 p s with
   | Some _ -> true
   | None -> false
 
@@ -16138,10 +17530,10 @@ let has_prefix1 p s =
 let has_suffix1 p s =
   has_prefix1 (rev p) (rev s)
 
-(** val trim_suffix : str -> str -> str **)
+(** val trim_suffix0 : str -> str -> str **)
 
-let trim_suffix s p =
-  match strip_prefix (rev p) (rev s) with
+let trim_suffix0 s p =
+  match strip_prefix0 (rev p) (rev s) with
   | Some r -> rev r
   | None -> s
 
@@ -16357,24 +17749,25 @@ let flush_lit lit rest =
   | [] -> rest
   | _ :: _ -> (PLit (rev lit)) :: rest
 
-(** val scan : str -> nat -> str -> piece list **)
+(** val scan0 : str -> nat -> str -> piece list **)
 
-let rec scan s skip lit =
+let rec scan0 s skip lit =
   match s with
   | [] -> flush_lit lit []
   | c :: r ->
     (match skip with
      | O ->
        (match if Z.eqb c c_bs then match_at r else None with
-        | Some n -> flush_lit lit ((PEsc (firstn n r)) :: (scan r n []))
+        | Some n -> flush_lit lit ((PEsc (firstn n r)) :: (scan0 r n []))
         | None ->
           (match match_at s with
            | Some n0 ->
              (match n0 with
-              | O -> scan r O (c :: lit)
-              | S n -> flush_lit lit ((PPh (firstn (S n) s)) :: (scan r n [])))
-           | None -> scan r O (c :: lit)))
-     | S k -> scan r k lit)
+              | O -> scan0 r O (c :: lit)
+              | S n ->
+                flush_lit lit ((PPh (firstn (S n) s)) :: (scan0 r n [])))
+           | None -> scan0 r O (c :: lit)))
+     | S k -> scan0 r k lit)
 
 type flags = { f_plus : bool; f_space : bool; f_number : bool; f_file : 
                bool; f_raw : bool }
@@ -16533,9 +17926,9 @@ let bits = function
 | Zpos p -> Pos.size_nat p
 | Zneg p -> Pos.size_nat p
 
-(** val itoa : z -> str **)
+(** val itoa0 : z -> str **)
 
-let itoa n =
+let itoa0 n =
   if Z.ltb n Z0
   then (Zpos (XI (XO (XI (XI (XO
          XH)))))) :: (itoa_pos (S (bits n)) (Z.opp n) [])
@@ -16563,9 +17956,9 @@ let rec split_dd s cur =
 
 type rng = z * z
 
-(** val new_range0 : z -> z -> rng **)
+(** val new_range1 : z -> z -> rng **)
 
-let new_range0 b e =
+let new_range1 b e =
   let b0 =
     if (&&) (Z.eqb b (Zpos XH)) (negb (Z.eqb e (Zpos XH))) then Z0 else b
   in
@@ -16582,14 +17975,14 @@ let atoi_nz s =
 
 let parse_range0 s =
   if str_eqb s s_dd
-  then Some (new_range0 Z0 Z0)
+  then Some (new_range1 Z0 Z0)
   else if has_prefix1 s_dd s
        then (match atoi_nz (skipn (S (S O)) s) with
-             | Some e -> Some (new_range0 Z0 e)
+             | Some e -> Some (new_range1 Z0 e)
              | None -> None)
        else if has_suffix1 s_dd s
             then (match atoi_nz (firstn (sub (length s) (S (S O))) s) with
-                  | Some b -> Some (new_range0 b Z0)
+                  | Some b -> Some (new_range1 b Z0)
                   | None -> None)
             else (match split_dd s [] with
                   | [] -> None
@@ -16597,7 +17990,7 @@ let parse_range0 s =
                     (match l with
                      | [] ->
                        (match atoi_nz s with
-                        | Some n -> Some (new_range0 n n)
+                        | Some n -> Some (new_range1 n n)
                         | None -> None)
                      | b :: l0 ->
                        (match l0 with
@@ -16608,7 +18001,7 @@ let parse_range0 s =
                               | Some y ->
                                 if (&&) (Z.ltb x Z0) (Z.ltb Z0 y)
                                 then None
-                                else Some (new_range0 x y)
+                                else Some (new_range1 x y)
                               | None -> None)
                            | None -> None)
                         | _ :: _ -> None)))
@@ -16642,10 +18035,10 @@ let split_nth0 s = match s with
 | _ :: _ ->
   if forallb in_range s then parse_ranges (split_comma s []) else None
 
-type awk_state =
-| AwkNil
-| AwkBlack
-| AwkWhite
+type awk_state0 =
+| AwkNil0
+| AwkBlack0
+| AwkWhite0
 
 (** val awk_white : z -> bool **)
 
@@ -16653,54 +18046,54 @@ let awk_white c =
   (||) (Z.eqb c (Zpos (XI (XO (XO XH)))))
     (Z.eqb c (Zpos (XO (XO (XO (XO (XO XH)))))))
 
-(** val awk_go : str -> awk_state -> str -> str list -> str list **)
+(** val awk_go : str -> awk_state0 -> str -> str list -> str list **)
 
 let rec awk_go s st0 cur ret =
   match s with
   | [] -> (match st0 with
-           | AwkNil -> rev ret
+           | AwkNil0 -> rev ret
            | _ -> rev ((rev cur) :: ret))
   | c :: r ->
     (match st0 with
-     | AwkNil ->
+     | AwkNil0 ->
        if awk_white c
-       then awk_go r AwkNil cur ret
-       else awk_go r AwkBlack (c :: []) ret
-     | AwkBlack ->
-       awk_go r (if awk_white c then AwkWhite else AwkBlack) (c :: cur) ret
-     | AwkWhite ->
+       then awk_go r AwkNil0 cur ret
+       else awk_go r AwkBlack0 (c :: []) ret
+     | AwkBlack0 ->
+       awk_go r (if awk_white c then AwkWhite0 else AwkBlack0) (c :: cur) ret
+     | AwkWhite0 ->
        if awk_white c
-       then awk_go r AwkWhite (c :: cur) ret
-       else awk_go r AwkBlack (c :: []) ((rev cur) :: ret))
+       then awk_go r AwkWhite0 (c :: cur) ret
+       else awk_go r AwkBlack0 (c :: []) ((rev cur) :: ret))
 
 (** val awk_tokens : str -> str list **)
 
 let awk_tokens s =
-  awk_go s AwkNil [] []
+  awk_go s AwkNil0 [] []
 
-(** val split_after : nat -> str -> str -> str -> str list res **)
+(** val split_after0 : nat -> str -> str -> str -> str list res **)
 
-let rec split_after fuel sep0 s cur =
+let rec split_after0 fuel sep0 s cur =
   match fuel with
   | O -> Err OutOfFuel
   | S f ->
     (match s with
      | [] -> Ok ((rev cur) :: [])
      | c :: r ->
-       (match strip_prefix sep0 s with
+       (match strip_prefix0 sep0 s with
         | Some rest ->
-          bind (split_after f sep0 rest []) (fun l -> Ok
+          bind (split_after0 f sep0 rest []) (fun l -> Ok
             ((app (rev cur) sep0) :: l))
-        | None -> split_after f sep0 r (c :: cur)))
+        | None -> split_after0 f sep0 r (c :: cur)))
 
-(** val tokenize : str option -> str -> str list res **)
+(** val tokenize0 : str option -> str -> str list res **)
 
-let tokenize delim s =
-  match delim with
+let tokenize0 delim0 s =
+  match delim0 with
   | Some d ->
     (match d with
      | [] -> Err BadInput
-     | _ :: _ -> split_after (S (length s)) d s [])
+     | _ :: _ -> split_after0 (S (length s)) d s [])
   | None -> Ok (awk_tokens s)
 
 (** val sel_go : str list -> z -> z -> z -> str **)
@@ -16889,7 +18282,7 @@ let trim_space0 s =
   let l = trim_with space_len (length s) s in
   rev (trim_with space_len_rev (length l) (rev l))
 
-type item0 = z * str
+type item1 = z * str
 
 (** val min_int32 : z **)
 
@@ -16899,8 +18292,8 @@ let min_int32 =
     XH)))))))))))))))))))))))))))))))
 
 type params = { p_delim : str option; p_printsep : str; p_force_plus : 
-                bool; p_query : str; p_current : item0 list;
-                p_selected : item0 list; p_action : str; p_prompt : str;
+                bool; p_query : str; p_current : item1 list;
+                p_selected : item1 list; p_action : str; p_prompt : str;
                 p_fish : bool }
 
 type outp =
@@ -16957,48 +18350,48 @@ let s_empty_quotes =
 let quoted p v =
   ((quote_entry p.p_fish v), v)
 
-(** val repl_item : params -> flags -> item0 -> str * str **)
+(** val repl_item : params -> flags -> item1 -> str * str **)
 
 let repl_item p fl = function
 | (idx0, text) ->
   if fl.f_number
   then if Z.eqb idx0 min_int32
        then (s_empty_quotes, [])
-       else ((itoa idx0), (itoa idx0))
+       else ((itoa0 idx0), (itoa0 idx0))
   else if (||) fl.f_file fl.f_raw then (text, text) else quoted p text
 
 (** val field_value : params -> flags -> rng list -> str -> str res **)
 
 let field_value p fl rs text =
-  bind (tokenize p.p_delim text) (fun ts ->
+  bind (tokenize0 p.p_delim text) (fun ts ->
     let s = transform_join ts rs in
     let s0 = match p.p_delim with
-             | Some d -> trim_suffix s d
+             | Some d -> trim_suffix0 s d
              | None -> s in
     Ok (if fl.f_space then s0 else trim_space0 s0))
 
 (** val repl_fields :
-    params -> flags -> rng list -> item0 -> (str * str) res **)
+    params -> flags -> rng list -> item1 -> (str * str) res **)
 
 let repl_fields p fl rs it =
   bind (field_value p fl rs (snd it)) (fun v -> Ok
     (if (||) fl.f_file fl.f_raw then (v, v) else quoted p v))
 
-(** val map_res : ('a1 -> 'a2 res) -> 'a1 list -> 'a2 list res **)
+(** val map_res0 : ('a1 -> 'a2 res) -> 'a1 list -> 'a2 list res **)
 
-let rec map_res f = function
+let rec map_res0 f = function
 | [] -> Ok []
-| x :: r -> bind (f x) (fun y -> bind (map_res f r) (fun ys -> Ok (y :: ys)))
+| x :: r -> bind (f x) (fun y -> bind (map_res0 f r) (fun ys -> Ok (y :: ys)))
 
 (** val over_items :
-    params -> flags -> bool -> (item0 -> (str * str) res) -> str list ->
+    params -> flags -> bool -> (item1 -> (str * str) res) -> str list ->
     ((outp * str list) * str list) res **)
 
 let over_items p fl raw f temps =
   let items =
     if (||) fl.f_plus p.p_force_plus then p.p_selected else p.p_current
   in
-  bind (map_res f items) (fun reps ->
+  bind (map_res0 f items) (fun reps ->
     if fl.f_file
     then (match temps with
           | [] -> Err BadInput
@@ -17068,7 +18461,7 @@ let rec expand_all p ps temps =
     params -> str -> str list -> (outp list * str list) res **)
 
 let replace_structured p template temps =
-  expand_all p (scan template O []) temps
+  expand_all p (scan0 template O []) temps
 
 (** val replace_placeholder :
     params -> str -> str list -> (str * str list) res **)
@@ -17083,7 +18476,7 @@ let vopt_words = function
 | Some ws -> VL ((vstrs ws) :: [])
 | None -> VL []
 
-(** val as_item0 : val0 -> item0 **)
+(** val as_item0 : val0 -> item1 **)
 
 let as_item0 v =
   ((as_int (arg v O)), (as_str (arg v (S O))))
@@ -17178,7 +18571,7 @@ let dispatch_placeholder op a =
                                                XH)))))))))))
                                           then Some (VL
                                                  (map v_piece
-                                                   (scan (as_str a) O [])))
+                                                   (scan0 (as_str a) O [])))
                                           else None
 
 (** val nLB : z **)
@@ -17218,9 +18611,9 @@ let rec split_acc d cur = function
 let split_records d s =
   split_acc d [] s
 
-type item1 = nat * str
+type item2 = nat * str
 
-(** val number_from : nat -> str list -> item1 list **)
+(** val number_from : nat -> str list -> item2 list **)
 
 let rec number_from k = function
 | [] -> []
@@ -17231,7 +18624,7 @@ let rec number_from k = function
 let header_of =
   firstn
 
-(** val items_of : nat -> str list -> item1 list **)
+(** val items_of : nat -> str list -> item2 list **)
 
 let items_of hl recs =
   number_from O (skipn hl recs)
@@ -17243,7 +18636,7 @@ let keep_tail tail l =
   | O -> l
   | S _ -> last_n tail l
 
-(** val searchable : bool -> nat -> nat -> str -> item1 list **)
+(** val searchable : bool -> nat -> nat -> str -> item2 list **)
 
 let searchable read0 hl tail s =
   keep_tail tail (items_of hl (split_records (delim_of read0) s))
@@ -17565,7 +18958,7 @@ let rec run_ops chunk_size cs = function
 
 type bstate = { b_header : str list; b_index : nat }
 
-(** val build : nat -> bstate -> str -> bstate * item1 option **)
+(** val build : nat -> bstate -> str -> bstate * item2 option **)
 
 let build hl st0 data =
   if Nat.ltb (length st0.b_header) hl
@@ -17575,7 +18968,7 @@ let build hl st0 data =
          (st0.b_index, data)))
 
 (** val ingest :
-    nat -> nat -> bstate -> item1 chunklist -> str list -> (bstate * item1
+    nat -> nat -> bstate -> item2 chunklist -> str list -> (bstate * item2
     chunklist) res **)
 
 let rec ingest chunk_size hl st0 cs = function
@@ -17590,7 +18983,7 @@ let rec ingest chunk_size hl st0 cs = function
 
 (** val pipeline :
     nat -> nat -> nat -> bool -> nat -> nat -> str -> nat list -> (str
-    list * item1 list) res **)
+    list * item2 list) res **)
 
 let pipeline bufsz slabsz chunk_size read0 hl tail s cuts =
   bind (feed_records bufsz slabsz (delim_of read0) false s cuts) (fun recs ->
@@ -17606,7 +18999,7 @@ let pipeline bufsz slabsz chunk_size read0 hl tail s cuts =
 let as_nats v =
   map as_nat (as_list v)
 
-(** val vitem0 : item1 -> val0 **)
+(** val vitem0 : item2 -> val0 **)
 
 let vitem0 it =
   VL ((vnat (fst it)) :: ((vstr (snd it)) :: []))
@@ -17706,16 +19099,16 @@ let dispatch_record op a =
                            then Some (d_keep_tail a)
                            else None
 
-(** val is_blank0 : z -> bool **)
+(** val is_blank1 : z -> bool **)
 
-let is_blank0 c =
+let is_blank1 c =
   (||) (Z.eqb c (Zpos (XI (XO (XO XH)))))
     (Z.eqb c (Zpos (XO (XO (XO (XO (XO XH)))))))
 
 (** val non_blank : z -> bool **)
 
 let non_blank c =
-  negb (is_blank0 c)
+  negb (is_blank1 c)
 
 (** val span0 : ('a1 -> bool) -> 'a1 list -> 'a1 list * 'a1 list **)
 
@@ -17733,55 +19126,55 @@ let rec awk_fields_from fuel s =
      | [] -> []
      | _ :: _ ->
        let (w, r1) = span0 non_blank s in
-       let (b, r2) = span0 is_blank0 r1 in (app w b) :: (awk_fields_from k r2))
+       let (b, r2) = span0 is_blank1 r1 in (app w b) :: (awk_fields_from k r2))
 
 (** val awk_lead : str -> str **)
 
 let awk_lead line =
-  fst (span0 is_blank0 line)
+  fst (span0 is_blank1 line)
 
-(** val awk_fields : str -> str list **)
+(** val awk_fields0 : str -> str list **)
 
-let awk_fields line =
-  let r = snd (span0 is_blank0 line) in awk_fields_from (length r) r
+let awk_fields0 line =
+  let r = snd (span0 is_blank1 line) in awk_fields_from (length r) r
 
-(** val is_prefix : str -> str -> bool **)
+(** val is_prefix0 : str -> str -> bool **)
 
-let rec is_prefix p s =
+let rec is_prefix0 p s =
   match p with
   | [] -> true
   | x :: p' ->
     (match s with
      | [] -> false
-     | y :: s' -> (&&) (Z.eqb x y) (is_prefix p' s'))
+     | y :: s' -> (&&) (Z.eqb x y) (is_prefix0 p' s'))
 
-(** val split_after_go : str -> nat -> str -> str -> str list **)
+(** val split_after_go0 : str -> nat -> str -> str -> str list **)
 
-let rec split_after_go sep0 skip cur s = match s with
+let rec split_after_go0 sep0 skip cur s = match s with
 | [] -> (rev cur) :: []
 | c :: t0 ->
   (match skip with
    | O ->
-     if is_prefix sep0 s
+     if is_prefix0 sep0 s
      then (match length sep0 with
-           | O -> split_after_go sep0 (sub O (S O)) (c :: cur) t0
+           | O -> split_after_go0 sep0 (sub O (S O)) (c :: cur) t0
            | S n0 ->
              (match n0 with
-              | O -> (rev (c :: cur)) :: (split_after_go sep0 O [] t0)
+              | O -> (rev (c :: cur)) :: (split_after_go0 sep0 O [] t0)
               | S n1 ->
-                split_after_go sep0 (sub (S (S n1)) (S O)) (c :: cur) t0))
-     else split_after_go sep0 O (c :: cur) t0
+                split_after_go0 sep0 (sub (S (S n1)) (S O)) (c :: cur) t0))
+     else split_after_go0 sep0 O (c :: cur) t0
    | S k ->
      (match k with
-      | O -> (rev (c :: cur)) :: (split_after_go sep0 O [] t0)
-      | S _ -> split_after_go sep0 k (c :: cur) t0))
+      | O -> (rev (c :: cur)) :: (split_after_go0 sep0 O [] t0)
+      | S _ -> split_after_go0 sep0 k (c :: cur) t0))
 
-(** val split_after0 : str -> str -> str list **)
+(** val split_after1 : str -> str -> str list **)
 
-let split_after0 sep0 line =
+let split_after1 sep0 line =
   match sep0 with
   | [] -> map (fun c -> c :: []) line
-  | _ :: _ -> split_after_go sep0 O [] line
+  | _ :: _ -> split_after_go0 sep0 O [] line
 
 (** val split_by_from : nat -> (nat * nat) list -> str -> str list **)
 
@@ -17894,9 +19287,9 @@ let rec digits_of fuel n acc =
 let digits n =
   digits_of (S (Z.to_nat (Z.log2 n))) n []
 
-(** val itoa0 : z -> str **)
+(** val itoa1 : z -> str **)
 
-let itoa0 z0 =
+let itoa1 z0 =
   if Z.ltb z0 Z0
   then (Zpos (XI (XO (XI (XI (XO XH)))))) :: (digits (Z.opp z0))
   else digits z0
@@ -17909,13 +19302,13 @@ let dOT0 =
 (** val print_fexpr : fexpr -> str **)
 
 let print_fexpr = function
-| FIdx n -> itoa0 n
+| FIdx n -> itoa1 n
 | FRange (a, b) ->
   app (match a with
-       | Some x -> itoa0 x
+       | Some x -> itoa1 x
        | None -> [])
     (app (dOT0 :: (dOT0 :: [])) (match b with
-                                 | Some y -> itoa0 y
+                                 | Some y -> itoa1 y
                                  | None -> []))
 
 (** val is_space0 : z -> bool **)
@@ -17954,9 +19347,9 @@ let is_space0 c =
     (Z.eqb c (Zpos (XO (XO (XO (XO (XO (XO (XO (XO (XO (XO (XO (XO (XI
       XH)))))))))))))))
 
-(** val trim_right0 : (z -> bool) -> str -> str **)
+(** val trim_right1 : (z -> bool) -> str -> str **)
 
-let trim_right0 p s =
+let trim_right1 p s =
   rev (drop_while p (rev s))
 
 (** val inside_selection : fexpr -> nat -> str list -> nat -> nat -> bool **)
@@ -17969,14 +19362,14 @@ let inside_selection ex start fields s e =
 type token = { t_text0 : str; t_prefix : z }
 
 type delimiter =
-| DAwk
-| DStr of str
+| DAwk0
+| DStr0 of str
 | DRegex of (str -> (nat * nat) list)
 
 (** val is_awk : delimiter -> bool **)
 
 let is_awk = function
-| DAwk -> true
+| DAwk0 -> true
 | _ -> false
 
 (** val slice1 : str -> nat -> nat -> str res **)
@@ -17996,36 +19389,36 @@ let rec with_prefix_lengths tokens0 begin0 =
       begin0 } :: (with_prefix_lengths r
                     (Z.add begin0 (Z.of_nat (length t0))))
 
-type awk_state0 =
-| AwkNil0
-| AwkBlack0
-| AwkWhite0
+type awk_state1 =
+| AwkNil1
+| AwkBlack1
+| AwkWhite1
 
-(** val awk_loop :
-    awk_state0 -> str -> str list -> z -> str -> str list * z **)
+(** val awk_loop0 :
+    awk_state1 -> str -> str list -> z -> str -> str list * z **)
 
-let rec awk_loop st0 cur ret pl = function
+let rec awk_loop0 st0 cur ret pl = function
 | [] -> ((rev (match st0 with
-               | AwkNil0 -> ret
+               | AwkNil1 -> ret
                | _ -> (rev cur) :: ret)), pl)
 | r :: t0 ->
-  let white = is_blank0 r in
+  let white = is_blank1 r in
   (match st0 with
-   | AwkNil0 ->
+   | AwkNil1 ->
      if white
-     then awk_loop AwkNil0 cur ret (Z.add pl (Zpos XH)) t0
-     else awk_loop AwkBlack0 (r :: []) ret pl t0
-   | AwkBlack0 ->
-     awk_loop (if white then AwkWhite0 else AwkBlack0) (r :: cur) ret pl t0
-   | AwkWhite0 ->
+     then awk_loop0 AwkNil1 cur ret (Z.add pl (Zpos XH)) t0
+     else awk_loop0 AwkBlack1 (r :: []) ret pl t0
+   | AwkBlack1 ->
+     awk_loop0 (if white then AwkWhite1 else AwkBlack1) (r :: cur) ret pl t0
+   | AwkWhite1 ->
      if white
-     then awk_loop AwkWhite0 (r :: cur) ret pl t0
-     else awk_loop AwkBlack0 (r :: []) ((rev cur) :: ret) pl t0)
+     then awk_loop0 AwkWhite1 (r :: cur) ret pl t0
+     else awk_loop0 AwkBlack1 (r :: []) ((rev cur) :: ret) pl t0)
 
-(** val awk_tokenizer : str -> str list * z **)
+(** val awk_tokenizer0 : str -> str list * z **)
 
-let awk_tokenizer input =
-  awk_loop AwkNil0 [] [] Z0 input
+let awk_tokenizer0 input =
+  awk_loop0 AwkNil1 [] [] Z0 input
 
 (** val regex_tokens : str -> nat -> (nat * nat) list -> str list res **)
 
@@ -18039,13 +19432,13 @@ let rec regex_tokens text begin0 = function
   bind (slice1 text begin0 e) (fun t0 ->
     bind (regex_tokens text e r) (fun rest -> Ok (t0 :: rest)))
 
-(** val tokenize0 : str -> delimiter -> token list res **)
+(** val tokenize1 : str -> delimiter -> token list res **)
 
-let tokenize0 text = function
-| DAwk ->
-  let (tokens0, pl) = awk_tokenizer text in
+let tokenize1 text = function
+| DAwk0 ->
+  let (tokens0, pl) = awk_tokenizer0 text in
   Ok (with_prefix_lengths tokens0 pl)
-| DStr sep0 -> Ok (with_prefix_lengths (split_after0 sep0 text) Z0)
+| DStr0 sep0 -> Ok (with_prefix_lengths (split_after1 sep0 text) Z0)
 | DRegex rx ->
   bind (regex_tokens text O (rx text)) (fun tokens0 -> Ok
     (with_prefix_lengths tokens0 Z0))
@@ -18053,24 +19446,24 @@ let tokenize0 text = function
 (** val has_prefix2 : str -> str -> bool **)
 
 let has_prefix2 =
-  is_prefix
+  is_prefix0
 
 (** val has_suffix2 : str -> str -> bool **)
 
 let has_suffix2 p s =
-  is_prefix (rev p) (rev s)
+  is_prefix0 (rev p) (rev s)
 
 (** val contains0 : str -> str -> bool **)
 
 let rec contains0 sub0 s =
-  (||) (is_prefix sub0 s)
+  (||) (is_prefix0 sub0 s)
     (match s with
      | [] -> false
      | _ :: t0 -> contains0 sub0 t0)
 
-(** val trim_suffix0 : str -> str -> str **)
+(** val trim_suffix1 : str -> str -> str **)
 
-let trim_suffix0 s suffix =
+let trim_suffix1 s suffix =
   if has_suffix2 suffix s
   then firstn (sub (length s) (length suffix)) s
   else s
@@ -18082,7 +19475,7 @@ let rec split_go sep0 skip cur s = match s with
 | c :: t0 ->
   (match skip with
    | O ->
-     if is_prefix sep0 s
+     if is_prefix0 sep0 s
      then (rev cur) :: (split_go sep0 (sub (length sep0) (S O)) [] t0)
      else split_go sep0 O (c :: cur) t0
    | S k -> split_go sep0 k cur t0)
@@ -18174,11 +19567,11 @@ let atoi2 s = match s with
                     else None
                else None)
 
-type range = z * z
+type range0 = z * z
 
-(** val new_range1 : z -> z -> range **)
+(** val new_range2 : z -> z -> range0 **)
 
-let new_range1 b e =
+let new_range2 b e =
   let b0 =
     if (&&) (Z.eqb b (Zpos XH)) (negb (Z.eqb e (Zpos XH))) then Z0 else b
   in
@@ -18190,19 +19583,19 @@ let dD =
   (Zpos (XO (XI (XI (XI (XO XH)))))) :: ((Zpos (XO (XI (XI (XI (XO
     XH)))))) :: [])
 
-(** val parse_range1 : str -> range option **)
+(** val parse_range1 : str -> range0 option **)
 
 let parse_range1 s =
   if str_eqb s dD
-  then Some (new_range1 Z0 Z0)
+  then Some (new_range2 Z0 Z0)
   else if has_prefix2 dD s
        then (match atoi2 (skipn (S (S O)) s) with
-             | Some e -> if Z.eqb e Z0 then None else Some (new_range1 Z0 e)
+             | Some e -> if Z.eqb e Z0 then None else Some (new_range2 Z0 e)
              | None -> None)
        else if has_suffix2 dD s
             then (match atoi2 (firstn (sub (length s) (S (S O))) s) with
                   | Some b ->
-                    if Z.eqb b Z0 then None else Some (new_range1 b Z0)
+                    if Z.eqb b Z0 then None else Some (new_range2 b Z0)
                   | None -> None)
             else if contains0 dD s
                  then (match split dD s with
@@ -18220,29 +19613,29 @@ let parse_range1 s =
                                      if (||) ((||) (Z.eqb b Z0) (Z.eqb e Z0))
                                           ((&&) (Z.ltb b Z0) (Z.ltb Z0 e))
                                      then None
-                                     else Some (new_range1 b e)
+                                     else Some (new_range2 b e)
                                    | None -> None)
                                 | None -> None)
                              | _ :: _ -> None)))
                  else (match atoi2 s with
                        | Some n ->
-                         if Z.eqb n Z0 then None else Some (new_range1 n n)
+                         if Z.eqb n Z0 then None else Some (new_range2 n n)
                        | None -> None)
 
-(** val range_to_string : range -> str **)
+(** val range_to_string : range0 -> str **)
 
 let range_to_string = function
 | (b, e) ->
   if (&&) (Z.eqb b Z0) (Z.eqb e Z0)
   then dD
   else if Z.eqb b e
-       then itoa0 b
-       else app (if Z.eqb b Z0 then [] else itoa0 b)
+       then itoa1 b
+       else app (if Z.eqb b Z0 then [] else itoa1 b)
               (if Z.eqb b (Zneg XH)
                then []
-               else app dD (if Z.eqb e Z0 then [] else itoa0 e))
+               else app dD (if Z.eqb e Z0 then [] else itoa1 e))
 
-(** val ranges_to_string : range list -> str **)
+(** val ranges_to_string : range0 list -> str **)
 
 let ranges_to_string rs =
   concat_map_sep (Zpos (XO (XO (XI (XI (XO XH)))))) (map range_to_string rs)
@@ -18271,9 +19664,9 @@ let rec collect tokens0 n fuel idx0 e =
          else collect tokens0 n k (Z.add idx0 (Zpos XH)) e
     else Ok []
 
-(** val transform_one : token list -> range -> token res **)
+(** val transform_one0 : token list -> range0 -> token res **)
 
-let transform_one tokens0 r =
+let transform_one0 tokens0 r =
   let n = Z.of_nat (length tokens0) in
   let (rb, re) = r in
   bind
@@ -18314,28 +19707,28 @@ let transform_one tokens0 r =
        then bind (get tokens0 (Z.to_nat min_idx)) (fun t0 -> Ok t0.t_prefix)
        else Ok Z0) (fun pl -> Ok { t_text0 = merged; t_prefix = pl }))
 
-(** val transform : token list -> range list -> token list res **)
+(** val transform : token list -> range0 list -> token list res **)
 
 let rec transform tokens0 = function
 | [] -> Ok []
 | r :: rest ->
-  bind (transform_one tokens0 r) (fun t0 ->
+  bind (transform_one0 tokens0 r) (fun t0 ->
     bind (transform tokens0 rest) (fun ts -> Ok (t0 :: ts)))
 
-(** val strip_last_delimiter : str -> delimiter -> str res **)
+(** val strip_last_delimiter0 : str -> delimiter -> str res **)
 
-let strip_last_delimiter s d =
+let strip_last_delimiter0 s d =
   bind
     (match d with
-     | DAwk -> Ok s
-     | DStr sep0 -> Ok (trim_suffix0 s sep0)
+     | DAwk0 -> Ok s
+     | DStr0 sep0 -> Ok (trim_suffix1 s sep0)
      | DRegex rx ->
        (match rev (rx s) with
         | [] -> Ok s
         | p :: _ ->
           let (b, e) = p in
           if Nat.eqb e (length s) then slice1 s O b else Ok s)) (fun s1 -> Ok
-    (trim_right0 is_space0 s1))
+    (trim_right1 is_space0 s1))
 
 (** val map_last : ('a1 -> 'a1 res) -> 'a1 list -> 'a1 list res **)
 
@@ -18346,15 +19739,16 @@ let rec map_last f = function
    | [] -> bind (f x) (fun y -> Ok (y :: []))
    | _ :: _ -> bind (map_last f r) (fun r' -> Ok (x :: r')))
 
-(** val transform_input : str -> range list -> delimiter -> token list res **)
+(** val transform_input :
+    str -> range0 list -> delimiter -> token list res **)
 
 let transform_input line nth0 d =
-  bind (tokenize0 line d) (fun tokens0 ->
+  bind (tokenize1 line d) (fun tokens0 ->
     bind (transform tokens0 nth0) (fun ret ->
       if is_awk d
       then Ok ret
       else map_last (fun t0 ->
-             bind (strip_last_delimiter t0.t_text0 d) (fun s -> Ok
+             bind (strip_last_delimiter0 t0.t_text0 d) (fun s -> Ok
                { t_text0 = s; t_prefix = t0.t_prefix })) ret))
 
 type match_fn = str -> ((nat * nat) * nat list) option
@@ -18374,7 +19768,7 @@ let rec iter pfun = function
    | None -> iter pfun rest)
 
 (** val nth_match :
-    match_fn -> str -> range list -> delimiter -> ((z * z) * z list) option
+    match_fn -> str -> range0 list -> delimiter -> ((z * z) * z list) option
     res **)
 
 let nth_match pfun line nth0 d =
@@ -18383,16 +19777,16 @@ let nth_match pfun line nth0 d =
   | _ :: _ ->
     bind (transform_input line nth0 d) (fun tokens0 -> Ok (iter pfun tokens0))
 
-(** val nth_transformer : range list -> token list -> str res **)
+(** val nth_transformer : range0 list -> token list -> str res **)
 
 let nth_transformer nth0 tokens0 =
   bind (transform tokens0 nth0) (fun ts -> Ok (join_tokens ts))
 
-(** val accept_nth : str -> range list -> delimiter -> str res **)
+(** val accept_nth0 : str -> range0 list -> delimiter -> str res **)
 
-let accept_nth line nth0 d =
-  bind (tokenize0 line d) (fun tokens0 ->
-    bind (nth_transformer nth0 tokens0) (fun s -> strip_last_delimiter s d))
+let accept_nth0 line nth0 d =
+  bind (tokenize1 line d) (fun tokens0 ->
+    bind (nth_transformer nth0 tokens0) (fun s -> strip_last_delimiter0 s d))
 
 (** val vtok : token -> val0 **)
 
@@ -18438,22 +19832,22 @@ let as_rx v =
   rx_lookup
     (map (fun e -> ((as_str (arg e O)), (as_locs (arg e (S O))))) (as_list v))
 
-(** val as_delim : val0 -> delimiter **)
+(** val as_delim0 : val0 -> delimiter **)
 
-let as_delim v =
+let as_delim0 v =
   let k = as_int (arg v O) in
   if Z.eqb k (Zpos XH)
-  then DStr (as_str (arg v (S O)))
-  else if Z.eqb k (Zpos (XO XH)) then DRegex (as_rx (arg v (S O))) else DAwk
+  then DStr0 (as_str (arg v (S O)))
+  else if Z.eqb k (Zpos (XO XH)) then DRegex (as_rx (arg v (S O))) else DAwk0
 
-(** val as_range : val0 -> range **)
+(** val as_range : val0 -> range0 **)
 
 let as_range v =
   ((as_int (arg v O)), (as_int (arg v (S O))))
 
-(** val as_ranges : val0 -> range list **)
+(** val as_ranges0 : val0 -> range0 list **)
 
-let as_ranges v =
+let as_ranges0 v =
   map as_range (as_list v)
 
 (** val as_optz0 : val0 -> z option **)
@@ -18512,41 +19906,42 @@ let vmatch = function
 let dispatch_token op a =
   if Z.eqb op (Zpos (XI (XO (XO (XI (XO (XI (XI (XI (XI XH))))))))))
   then Some
-         (vres vtoks (tokenize0 (as_str (arg a O)) (as_delim (arg a (S O)))))
+         (vres vtoks (tokenize1 (as_str (arg a O)) (as_delim0 (arg a (S O)))))
   else if Z.eqb op (Zpos (XO (XI (XO (XI (XO (XI (XI (XI (XI XH))))))))))
        then Some
               (match parse_range1 (as_str a) with
                | Some r ->
                  VL ((VL
-                   ((vstr (itoa0 (fst r))) :: ((vstr (itoa0 (snd r))) :: []))) :: [])
+                   ((vstr (itoa1 (fst r))) :: ((vstr (itoa1 (snd r))) :: []))) :: [])
                | None -> VL [])
        else if Z.eqb op (Zpos (XI (XI (XO (XI (XO (XI (XI (XI (XI XH))))))))))
             then Some
                    (vres vtoks
-                     (transform (as_toks (arg a O)) (as_ranges (arg a (S O)))))
+                     (transform (as_toks (arg a O))
+                       (as_ranges0 (arg a (S O)))))
             else if Z.eqb op (Zpos (XO (XO (XI (XI (XO (XI (XI (XI (XI
                       XH))))))))))
                  then Some
                         (vres vtoks
                           (transform_input (as_str (arg a O))
-                            (as_ranges (arg a (S O)))
-                            (as_delim (arg a (S (S O))))))
+                            (as_ranges0 (arg a (S O)))
+                            (as_delim0 (arg a (S (S O))))))
                  else if Z.eqb op (Zpos (XI (XO (XI (XI (XO (XI (XI (XI (XI
                            XH))))))))))
-                      then Some (vstr (ranges_to_string (as_ranges a)))
+                      then Some (vstr (ranges_to_string (as_ranges0 a)))
                       else if Z.eqb op (Zpos (XO (XI (XI (XI (XO (XI (XI (XI
                                 (XI XH))))))))))
                            then Some
                                   (vres vstr
-                                    (strip_last_delimiter (as_str (arg a O))
-                                      (as_delim (arg a (S O)))))
+                                    (strip_last_delimiter0 (as_str (arg a O))
+                                      (as_delim0 (arg a (S O)))))
                            else if Z.eqb op (Zpos (XI (XI (XI (XI (XO (XI (XI
                                      (XI (XI XH))))))))))
                                 then Some
                                        (vres vstr
-                                         (accept_nth (as_str (arg a O))
-                                           (as_ranges (arg a (S O)))
-                                           (as_delim (arg a (S (S O))))))
+                                         (accept_nth0 (as_str (arg a O))
+                                           (as_ranges0 (arg a (S O)))
+                                           (as_delim0 (arg a (S (S O))))))
                                 else if Z.eqb op (Zpos (XO (XO (XO (XO (XI
                                           (XI (XI (XI (XI XH))))))))))
                                      then Some
@@ -18555,14 +19950,14 @@ let dispatch_token op a =
                                                 (as_match_fn
                                                   (arg a (S (S (S O)))))
                                                 (as_str (arg a O))
-                                                (as_ranges (arg a (S O)))
-                                                (as_delim (arg a (S (S O))))))
+                                                (as_ranges0 (arg a (S O)))
+                                                (as_delim0 (arg a (S (S O))))))
                                      else if Z.eqb op (Zpos (XI (XO (XO (XO
                                                (XI (XI (XI (XI (XI
                                                XH))))))))))
                                           then Some
                                                  (let (ts, pl) =
-                                                    awk_tokenizer (as_str a)
+                                                    awk_tokenizer0 (as_str a)
                                                   in
                                                   VL ((vstrs ts) :: ((VI
                                                   pl) :: [])))
@@ -18589,7 +19984,7 @@ let dispatch_token op a =
                                                               (awk_lead
                                                                 (as_str a))) :: (
                                                            (vstrs
-                                                             (awk_fields
+                                                             (awk_fields0
                                                                (as_str a))) :: [])))
                                                     else if Z.eqb op (Zpos
                                                               (XO (XO (XI (XO
@@ -18597,7 +19992,7 @@ let dispatch_token op a =
                                                               (XI XH))))))))))
                                                          then Some
                                                                 (vstrs
-                                                                  (split_after0
+                                                                  (split_after1
                                                                     (as_str
                                                                     (arg a O))
                                                                     (as_str
@@ -18877,7 +20272,7 @@ type kind0 =
 | KSymFile
 | KSymDir
 
-type action0 =
+type action1 =
 | Continue
 | SkipDir
 
@@ -18962,11 +20357,11 @@ let trim_path path =
   | [] -> dOT1 :: []
   | z0 :: l -> z0 :: l
 
-(** val take_while1 : ('a1 -> bool) -> 'a1 list -> 'a1 list **)
+(** val take_while2 : ('a1 -> bool) -> 'a1 list -> 'a1 list **)
 
-let rec take_while1 p = function
+let rec take_while2 p = function
 | [] -> []
-| x :: t0 -> if p x then x :: (take_while1 p t0) else []
+| x :: t0 -> if p x then x :: (take_while2 p t0) else []
 
 (** val go_base : str -> str **)
 
@@ -18974,7 +20369,7 @@ let go_base path = match path with
 | [] -> dOT1 :: []
 | _ :: _ ->
   let p1 = rev (drop_while is_sep0 (rev path)) in
-  let p3 = rev (take_while1 (fun c -> negb (is_sep0 c)) (rev p1)) in
+  let p3 = rev (take_while2 (fun c -> negb (is_sep0 c)) (rev p1)) in
   (match p3 with
    | [] -> sep
    | _ :: _ -> p3)
@@ -18999,7 +20394,7 @@ let push0 b p =
 
 (** val walk_fn :
     wopts -> ((str list * str list) * str list) -> str -> kind0 -> (str
-    list * action0) res **)
+    list * action1) res **)
 
 let walk_fn o ign path0 k =
   let (p, ign_suffix) = ign in
@@ -19036,7 +20431,7 @@ let walk_fn o ign path0 k =
                                   Ok ((push0 wanted path1), Continue))
        else Ok ((push0 wanted path), Continue)
 
-type callback = str -> kind0 -> (str list * action0) res
+type callback = str -> kind0 -> (str list * action1) res
 
 (** val fw_entry : callback -> bool -> str -> entry -> str list res **)
 
@@ -19230,18 +20625,21 @@ let dispatch op a =
                 (match dispatch_option op a with
                  | Some v -> v
                  | None ->
-                   (match dispatch_pattern op a with
+                   (match dispatch_output op a with
                     | Some v -> v
                     | None ->
-                      (match dispatch_placeholder op a with
+                      (match dispatch_pattern op a with
                        | Some v -> v
                        | None ->
-                         (match dispatch_record op a with
+                         (match dispatch_placeholder op a with
                           | Some v -> v
                           | None ->
-                            (match dispatch_token op a with
+                            (match dispatch_record op a with
                              | Some v -> v
                              | None ->
-                               (match dispatch_walk op a with
+                               (match dispatch_token op a with
                                 | Some v -> v
-                                | None -> verr))))))))))
+                                | None ->
+                                  (match dispatch_walk op a with
+                                   | Some v -> v
+                                   | None -> verr)))))))))))
